@@ -11,7 +11,12 @@ RULE = ("corpus (5 hand-written instances incl. tests/test_pedigreephasing.py::t
         "and pairs of unrelated trios (individual order, trio order and numeric sample ids permuted), trusted genotypes (random, mostly Mendelian-consistent) or phred triples (distrust mode, with "
         "arbitrary ignored genotypes), recombination costs 0-8 incl. zeros, explicit `positions` incl. columns no read covers "
         "and interior read variants at positions that are not phased; plus a malformed stream of trusted-genotype instances "
-        "with a Mendelian conflict (must raise). Generated coverage is kept <= 6 (trios <= 5, quartets <= 4, deeper pedigrees <= 3) plus a few trio-free instances with coverage up to 9. A case is non-trivial if it has >= 2 "
+        "with a Mendelian conflict (must raise). Generated coverage is kept <= 6 (trios <= 5, quartets <= 4, deeper pedigrees <= 3) plus a few trio-free instances with coverage up to 9. Plus an end-to-end stream: `whatshap phase` runs on "
+        "synthetic FASTA/VCF/BAM (single sample, trio, quartet via --ped with true recombination events; trusted or "
+        "--distrust-genotypes with GL-less VCFs and default/explicit --default-gq; default or explicit --recombrate; with or "
+        "without genetic haplotyping; reads with sequencing errors and varying base qualities; --internal-downsampling 2-6), "
+        "where the WHATSHAP_VERIF_TRACE hook records every instance handed to PedigreeDPTable with its result; each traced "
+        "instance goes through the same Coq checks. A case is non-trivial if it has >= 2 "
         "columns, >= 2 reads and some column with coverage >= 2; distinct = distinct instance.")
 TRUSTED = [
     "modelled, not verified: Gray-code enumeration with incremental cost update (update_partitioning; the model "
@@ -514,12 +519,23 @@ def check_cases(ctx, insts, label, with_opt=True, count=True):
     if pert:
         insts = [dict(i, perturb=pert) for i in insts]
     results = run_impl(ctx, insts)
+    return results, evaluate(ctx, insts, results, label, with_opt=with_opt, count=count)
+
+
+def evaluate(ctx, insts, results, label, with_opt=True, count=True, replays=None, traced=None):
+    """evaluate all checks in Coq on (instance, implementation result) pairs. replays[k] = replay payload of case k
+    (default: the instance itself); traced[k] = True for instances taken from an end-to-end CLI run (they need not
+    satisfy the generator's invariants). Returns failing: label -> [index]."""
     cases, idx = [], []
     failing = {k: [] for k in list(CHECKS) + list(CHECK_OPT) + ["shape"]}
+
+    def rp(k):
+        return replays[k] if replays and replays[k] is not None else {"inst": strip(insts[k])}
     for k, (inst, res) in enumerate(zip(insts, results)):
+        lab = "cli" if traced and traced[k] else label
         if count:
             ctx.count(inst_key(inst), nontrivial=nontrivial(inst))
-            ctx.tally(f"{label}.instances")
+            ctx.tally(f"{lab}.instances")
             ctx.tally(f"kind.{inst.get('kind', '?')}.{inst['mode']}")
             ctx.tally(f"columns.{len(inst['positions'])}")
             ctx.tally(f"reads.{len(inst['reads'])}")
@@ -528,17 +544,19 @@ def check_cases(ctx, insts, label, with_opt=True, count=True):
                                     else "error" if "err" in res else "solved"))
             if "tv" in res and len(set(res["tv"])) > 1:
                 ctx.tally("outcome.with-recombination")
+            if res.get("cost"):
+                ctx.tally(f"{lab}.nonzero-cost")
             if len(inst["positions"]) >= 4:
                 ctx.tally("sqrt-checkpointing(k>1)")
         if "crash" in res:
             failing["shape"].append(k)
             ctx.violation("pedmec:solver-abort", f"the solver process aborted (rc={res.get('rc')}: {res['crash'][-200:]}) on {inst_key(inst)}",
-                          {"inst": strip(inst)})
+                          rp(k))
             continue
         if not shape_ok(inst, res):
             failing["shape"].append(k)
             ctx.violation("pedmec:malformed-result", f"unexpected error or malformed super reads {json.dumps(res)[:300]} on {inst_key(inst)}",
-                          {"inst": strip(inst)})
+                          rp(k))
             continue
         cases.append(case_term(inst, res))
         idx.append(k)
@@ -547,8 +565,13 @@ def check_cases(ctx, insts, label, with_opt=True, count=True):
         raise RuntimeError("coq evaluation failed: " + errors[0][1])
     for lab, lst in f1.items():
         failing[lab] = [idx[i] for i in lst]
-    if failing["pre"]:
-        raise RuntimeError("generator bug: instance outside wf/no_overflow: " + inst_key(insts[failing["pre"][0]]))
+    outside = [k for k in failing["pre"] if traced and traced[k]]
+    gen_bad = [k for k in failing["pre"] if not (traced and traced[k])]
+    if gen_bad:
+        raise RuntimeError("generator bug: instance outside wf/no_overflow: " + inst_key(insts[gen_bad[0]]))
+    if outside:      # the CLI handed the solver an instance outside the theorem's hypotheses: L1 still decides
+        ctx.tally("cli.outside-hypotheses", len(outside))
+        ctx.extra.setdefault("cli_outside_hypotheses", []).append(inst_key(insts[outside[0]])[:2000])
     if with_opt:
         sm = [j for j, k in enumerate(idx) if small(insts[k])]
         f2, errors = eval_checks("C01opt", HEADER, CHECK_OPT, [cases[j] for j in sm], shard=max(2, min(12, len(sm) // 16 + 1)), timeout=1500)
@@ -557,10 +580,11 @@ def check_cases(ctx, insts, label, with_opt=True, count=True):
         failing["L1opt"] = [idx[sm[i]] for i in f2["L1opt"]]
         if count:
             ctx.tally("bruteforce-optimum-in-coq", len(sm))
+            ctx.tally("cli.bruteforce-optimum-in-coq", len([j for j in sm if traced and traced[idx[j]]]))
     for lab, (sig, what) in SIGNATURES.items():
         for k in failing[lab]:
-            ctx.violation(sig, f"{what}: impl={json.dumps(results[k])[:300]} on {inst_key(insts[k])}", {"inst": strip(insts[k])})
-    return results, failing
+            ctx.violation(sig, f"{what}: impl={json.dumps(results[k])[:300]} on {inst_key(insts[k])}", rp(k))
+    return failing
 
 
 def shrink_instance(inst, bad):
@@ -629,6 +653,171 @@ CORPUS = [
 ]
 
 
+# ------------------------------------------------------------------ end-to-end stream (whatshap phase + trace hook)
+def cli_spec(rng):
+    fam = rng.choice(["single", "single", "trio", "trio", "trio", "quartet"])
+    spec = {
+        "seed": rng.randrange(1 << 40),
+        "family": fam,
+        "k": {"single": rng.randint(2, 6), "trio": rng.choice([3, 4, 6]), "quartet": 4}[fam],   # --internal-downsampling
+        "nvars": rng.randint(4, 9) if fam != "quartet" else rng.randint(3, 6),
+        "reads_per_sample": rng.randint(6, 30),
+        "err": rng.choice([0.0, 0.03, 0.08, 0.15]),         # per-allele sequencing error of the simulated reads
+        "quals": rng.choice([[30], [10, 20, 30], [5, 12, 33, 40]]),
+        "het_fraction": rng.choice([0.6, 0.8, 1.0]),
+        "distrust": rng.random() < 0.35,
+        "default_gq": rng.choice([None, None, 10, 45]),
+        "recombrate": rng.choice([None, 1e5, 1e6, 5e6, 3e7]),   # cM/Mb; the synthetic variants are ~100 bp apart
+        "recomb_prob": rng.choice([0.0, 0.15, 0.3]),        # true recombination events in the children
+        "genetic": rng.random() < 0.7,
+        "kinds": rng.choice([["snv"], ["snv"], ["snv", "snv", "ins", "del", "mnp"]]),
+        "min_gap": rng.choice([25, 40]),
+    }
+    g = spec["min_gap"]
+    spec["len_range"] = rng.choice([[3 * g, 9 * g], [4 * g, 14 * g], [6 * g, 20 * g]])
+    return spec
+
+
+CLI_FAMILIES = {"single": ["S1"], "trio": ["father", "mother", "child"], "quartet": ["father", "mother", "child", "child2"]}
+
+
+def cli_reads(rng, sc, sample, chrom, n, len_range, err, quals):
+    """reads copying one true haplotype with each allele flipped with probability err (canonical CIGARs)"""
+    from .. import synth
+    ref, vs = sc.ref[chrom], sc.variants[chrom]
+    L = len(ref)
+    out = []
+    for k in range(n):
+        h = rng.randint(0, 1)
+        alleles = [x[h] if rng.random() >= err else 1 - x[h] for x in sc.haps[sample][chrom]]
+        length = rng.randint(*len_range)
+        s0 = rng.randint(0, max(0, L - length - 1))
+        e0 = min(L - 1, s0 + length)
+        while s0 < e0 and not synth.legal_boundary(vs, s0):
+            s0 += 1
+        while e0 > s0 and not synth.legal_boundary(vs, e0, alleles, True):
+            e0 -= 1
+        if e0 - s0 < 10:
+            continue
+        seq, cig = synth.hap_walk(ref, vs, alleles, s0, e0)
+        out.append(dict(name=f"{sample}_{chrom}_r{k}", sample=sample, chrom=chrom, start=s0, cigar=cig, seq=seq,
+                        qual=rng.choice(quals), hap=h, flag=0))
+    return out
+
+
+def run_cli_spec(ctx, spec):
+    """build the synthetic inputs of one spec, run `whatshap phase` with the trace hook; returns (rc, stderr, traces)"""
+    import os
+    import random
+    from .. import synth
+    rng = random.Random(spec["seed"])
+    wd = util.workdir(ctx, "C01cli")
+    samples = CLI_FAMILIES[spec["family"]]
+    sc = synth.make_scenario(rng, nchrom=1, nsamples=len(samples), nvars=spec["nvars"], sample_names=samples,
+                             het_fraction=spec["het_fraction"], min_gap=spec["min_gap"], kinds=tuple(spec["kinds"]))
+    trios = []
+    if spec["family"] != "single":
+        for c in sc.chroms:
+            for child in samples[2:]:
+                sc.haps[child][c], _ = synth.inherit(rng, sc.haps["father"][c], sc.haps["mother"][c], recomb_prob=spec["recomb_prob"])
+        trios = [(child, "father", "mother") for child in samples[2:]]
+    ref = synth.write_fasta(sc, os.path.join(wd, "ref.fa"))
+    vcf = synth.write_vcf(sc, os.path.join(wd, "in.vcf"))
+    reads = []
+    for smp in samples:
+        for c in sc.chroms:
+            reads += cli_reads(rng, sc, smp, c, spec["reads_per_sample"], tuple(spec["len_range"]), spec["err"], spec["quals"])
+    bam = synth.write_bam(sc, reads, os.path.join(wd, "reads.bam"))
+    trace = os.path.join(wd, "trace.jsonl")
+    args = ["phase", "--reference", ref, "-o", os.path.join(wd, "out.vcf"), "--internal-downsampling", spec["k"]]
+    if trios:
+        args += ["--ped", synth.write_ped(os.path.join(wd, "fam.ped"), trios)]
+        if not spec["genetic"]:
+            args += ["--no-genetic-haplotyping"]
+        if spec["recombrate"] is not None:
+            args += ["--recombrate", spec["recombrate"]]
+    if spec["distrust"]:
+        args += ["--distrust-genotypes"]
+        if spec["default_gq"] is not None:
+            args += ["--default-gq", spec["default_gq"]]
+    args += [vcf, bam]
+    rc, so, se = util.run_cli(ctx, args, cwd=wd, env_extra={"WHATSHAP_VERIF_TRACE": trace}, timeout=600)
+    traces = []
+    if rc == 0 and os.path.exists(trace):
+        with open(trace) as f:
+            traces = [json.loads(line) for line in f if line.strip()]
+    return rc, se, traces
+
+
+def trace_to_case(tr):
+    """one trace record -> (instance, result) in the shapes of gen_instance / run_impl; None if the record is outside
+    the modelled domain (other algorithm, multi-allelic genotype, non-integral likelihood)"""
+    if tr.get("algorithm") != "whatshap" or tr.get("partitioning") is None or tr.get("transmission_vector") is None:
+        return None, "other-algorithm"
+    fam = tr["family"]
+    idx = {s: i for i, s in enumerate(fam)}                      # pedigree index = position in the family list
+    by_numeric = {tr["numeric_ids"][s]: idx[s] for s in fam}
+    gts, gls = [], []
+    for smp in fam:
+        rowg = []
+        for g in tr["genotypes"][smp]:
+            if len(g) != 2 or any(a not in (0, 1) for a in g):
+                return None, "not-diploid-biallelic"
+            rowg.append(sum(g))
+        gts.append(rowg)
+        if tr["distrust_genotypes"]:
+            rowl = []
+            for gl in tr["phred_genotype_likelihoods"][smp]:
+                if gl is None or len(gl) != 3 or any(x != int(x) or x < 0 for x in gl):
+                    return None, "non-integral-likelihood"
+                rowl.append([int(x) for x in gl])
+            gls.append(rowl)
+    if any(c != int(c) or c < 0 for c in tr["recombination_costs"]):
+        return None, "non-integral-recombination-cost"
+    reads = []
+    for r in tr["reads"]:
+        if r["sample_id"] not in by_numeric or any(a not in (0, 1) for _, a, _ in r["variants"]):
+            return None, "read-outside-domain"
+        reads.append({"sample": by_numeric[r["sample_id"]], "vars": [[p, a, q] for p, a, q in r["variants"]]})
+    inst = {"kind": "cli-" + {1: "single", 3: "trio", 4: "quartet"}.get(len(fam), str(len(fam))),
+            "positions": list(tr["accessible_positions"]), "nind": len(fam),
+            "trios": [[idx[f], idx[m], idx[c]] for c, f, m in tr["trios"]],
+            "mode": "gl" if tr["distrust_genotypes"] else "gt", "reads": reads, "gt": gts,
+            "recomb": [int(c) for c in tr["recombination_costs"]]}
+    if tr["distrust_genotypes"]:
+        inst["gl"] = gls
+    res = {"cost": tr["cost"], "part": list(tr["partitioning"]), "tv": list(tr["transmission_vector"]),
+           "sr": [[[list(v) for v in sr] for sr in member] for member in tr["superreads"]]}
+    return (inst, res), None
+
+
+def cli_stream(ctx, specs):
+    """run the CLI specs (in parallel) and return (insts, results, replays) of every traced solver instance"""
+    from concurrent.futures import ThreadPoolExecutor
+    with ThreadPoolExecutor(max_workers=8) as ex:
+        outs = list(ex.map(lambda sp: run_cli_spec(ctx, sp), specs))
+    insts, results, replays = [], [], []
+    for spec, (rc, se, traces) in zip(specs, outs):
+        ctx.tally("cli.runs")
+        ctx.tally(f"cli.family.{spec['family']}" + (".distrust" if spec["distrust"] else ""))
+        if rc != 0:
+            ctx.count(("cli", json.dumps(spec, sort_keys=True)), nontrivial=False)
+            ctx.violation("pedmec:cli-crash", f"whatshap phase exited with {rc} on synthetic input {json.dumps(spec, sort_keys=True)}: {se[-400:]}",
+                          {"cli": spec})
+            continue
+        if not traces:
+            ctx.tally("cli.runs-without-trace")
+        for j, tr in enumerate(traces):
+            case, why = trace_to_case(tr)
+            if case is None:
+                ctx.tally("cli.skipped." + why)
+                continue
+            insts.append(case[0])
+            results.append(case[1])
+            replays.append({"cli": spec, "record": j, "inst": strip(case[0])})
+    return insts, results, replays
+
+
 def search(ctx, cands_from_l2):
     """L2 broke without an L1 failure: look for an input that violates the property text."""
     found = []
@@ -674,8 +863,24 @@ def run(ctx):
         ctx.extra["exhaustive_spaces"] = ("all 3x3 and 2x4 unit-weight gap-free matrices of one heterozygous individual (%d instances "
                                           "incl. a quarter of them re-read as a distrust-mode trio)" % len(ex))
         insts += ex
-    results, failing = check_cases(ctx, insts, "generated")
-    for inst, res in list(zip(insts, results))[:3] + list(zip(insts, results))[-2:]:
+    pert = os.environ.get("WHVERIF_C01_PERTURB")
+    if pert:
+        insts = [dict(i, perturb=pert) for i in insts]
+    results = run_impl(ctx, insts)
+    # end-to-end stream: every solver instance that `whatshap phase` hands to PedigreeDPTable on synthetic runs
+    specs = [cli_spec(rng) for _ in range(int(os.environ.get("WHVERIF_C01_CLI") or ctx.n(15, 200)))]
+    c_insts, c_results, c_replays = cli_stream(ctx, specs)
+    if pert == "cost":
+        for r in c_results:
+            r["cost"] += 1
+    ngen = len(insts)
+    insts = insts + c_insts
+    results = results + c_results
+    replays = [None] * ngen + c_replays
+    traced = [False] * ngen + [True] * len(c_insts)
+    failing = evaluate(ctx, insts, results, "generated", replays=replays, traced=traced)
+    pairs = list(zip(insts, results))
+    for inst, res in pairs[:3] + pairs[ngen - 1:ngen] + pairs[ngen:ngen + 2]:
         ctx.sample({"instance": inst, "impl": {k: v for k, v in res.items() if k != "sr"}})
     l2 = sorted(set(failing["L2cost"]) | set(failing["L2alleles"]) | set(failing["L2witness"]))
     if l2:
@@ -715,7 +920,18 @@ def exhaustive_small():
 
 
 def replay(ctx, data):
-    if isinstance(data, dict) and "inst" in data:
+    if isinstance(data, dict) and "cli" in data:
+        insts, results, replays = cli_stream(ctx, [data["cli"]])
+        if not insts:
+            ctx.log("replay: the CLI run produced no traced solver instance")
+            return
+        failing = evaluate(ctx, insts, results, "replay", replays=replays, traced=[True] * len(insts))
+        ctx.log("replay (cli) outcomes:", [{k: v for k, v in r.items() if k != "sr"} for r in results], "failing checks:",
+                {k: v for k, v in failing.items() if v})
+        for name in ("L2cost", "L2alleles", "L2witness"):
+            if failing[name]:
+                ctx.l2_disagreement(f"PedMEC model = PedigreeDPTable output ({name})", [{"inst": insts[k]} for k in failing[name]])
+    elif isinstance(data, dict) and "inst" in data:
         inst = strip(data["inst"])
         results, failing = check_cases(ctx, [inst], "replay", with_opt=small(inst) or len(inst["reads"]) <= 6)
         ctx.log("replay outcome:", {k: v for k, v in results[0].items() if k != "sr"}, "failing checks:",
